@@ -294,7 +294,7 @@ def run_child(bindir, project, cache, timeout):
 
 
 def run_e2e(rep, tier, r, fail):
-    nproj = 2 if tier == "quick" else 10
+    nproj = 2 if tier == "quick" else 6
     projects = []
     tmp = tempfile.mkdtemp(prefix="c16_e2e_")
     for k in range(nproj):
@@ -351,10 +351,16 @@ def run_e2e(rep, tier, r, fail):
                 wrong = [l for l in ls if l[1] != "P"]
                 if wrong:
                     fail("broken-tie", f"project {k} {name} (cache {mode}): a counterexample does not reach a Panic leaf: {wrong}", case)
-            timeouts = b_["outputs"].count("unknown") + b_["outputs"].count("err")
+            timeouts_off = b_["outputs"].count("unknown") + b_["outputs"].count("err")
+            timeouts_on = a["outputs"].count("unknown") + a["outputs"].count("err")
             if a["exitcode"] != b_["exitcode"] or la != lb or a["outputs"] != b_["outputs"]:
-                if timeouts and a["outputs"].count("sat") == b_["outputs"].count("sat"):
+                if timeouts_off and a["outputs"].count("sat") == b_["outputs"].count("sat"):
                     rep.count("e2e_monotone_only", name)   # allowed by C16_monotone: solver failed without cache
+                    continue
+                if timeouts_on and la <= lb and a["outputs"].count("sat") + timeouts_on >= b_["outputs"].count("sat"):
+                    # the solver gave up on the *instrumented* query (named assertions + produce-unsat-cores make
+                    # the file different): outside the model, where the solver is one function of the constraints
+                    rep.count("e2e_solver_gave_up_with_cache", name)
                     continue
                 fail("failing-input", f"project {k} {name}: verdict/counterexamples differ: cache on exit={a['exitcode']} outputs={a['outputs']} leaves={sorted(la)}; cache off exit={b_['exitcode']} outputs={b_['outputs']} leaves={sorted(lb)}",
                      dict(case, test=name), sig={"observable": "on-vs-off-e2e"})
